@@ -188,6 +188,37 @@ fn op_buildseq(args: &[&str]) -> String {
     out.join(" ; ")
 }
 
+/// BUILDREP <n> <msgA> <msgB> <msgC>: one builder; msgA built n times (results dropped), then msgB, then msgC.
+/// Reports the results of the last two builds (implementation only: the model's builder has no counter to wrap).
+fn op_buildrep(args: &[&str]) -> String {
+    let n: usize = match args[0].parse() {
+        Ok(n) => n,
+        Err(_) => return "BADVAL count".into(),
+    };
+    let mut ms = vec![];
+    for a in &args[1..4] {
+        match parse_msg(a) {
+            Ok(m) => ms.push(m),
+            Err(e) => return format!("BADVAL {}", e),
+        }
+    }
+    let r = catch_unwind(AssertUnwindSafe(|| {
+        let mut b = MessageBuilder::new();
+        for _ in 0..n {
+            let _ = b.build_message(&ms[0]);
+        }
+        let mut out = vec![];
+        for m in &ms[1..3] {
+            out.push(match b.build_message(m) {
+                Ok(bytes) => format!("OK {}", hex(bytes)),
+                Err(e) => format!("ERR {}", err_name(&e)),
+            });
+        }
+        out.join(" ; ")
+    }));
+    r.unwrap_or_else(|_| "PANIC".into())
+}
+
 /// ROUNDTRIP <msg>: E(m); D(E m); E(D(E m)); D(E(D(E m))) -- the C01 chain, computed by the implementation alone.
 fn op_roundtrip(args: &[&str], history: bool) -> String {
     let m = match parse_msg(args[0]) {
@@ -536,6 +567,7 @@ fn run_line(line: &str) -> String {
         "DECODE" => op_decode(args),
         "ENCODE" => op_encode(args),
         "BUILDSEQ" => op_buildseq(args),
+        "BUILDREP" => op_buildrep(args),
         "ROUNDTRIP" => op_roundtrip(args, false),
         "ROUNDTRIPH" => op_roundtrip(args, true),
         "REDECODE" => op_redecode(args),
